@@ -342,3 +342,53 @@ Proof.
   unfold body_of_text. destruct (Transport.JsonText.parse_text Transport.EnvelopeModel.StdJson (numval_of in_range) text); try reflexivity.
   intro H. contradiction H. reflexivity.
 Qed.
+
+(** ** (7) NewSchema: what holds of every schema definition it accepts (the names are the member
+    names of the JSON:API text - Spec's [member_name] -, "id" and "type" name neither an attribute
+    nor a relationship, no name is both, every attribute has a resolver, every relationship a
+    resolver that can resolve), and conversely *)
+Definition type_def_valid (t : type_def) : Prop :=
+  member_name (td_name t) = true /\
+  (forall a, In a (td_attrs t) ->
+     member_name (fst a) = true /\ fst a <> s_id /\ fst a <> s_type /\ snd a = true /\
+     ~ In (fst a) (map fst (td_rels t))) /\
+  (forall r, In r (td_rels t) ->
+     member_name (fst r) = true /\ fst r <> s_id /\ fst r <> s_type /\ snd r <> RKNone /\ snd r <> RKLib false).
+
+Lemma reserved_name_false n : reserved_name n = false <-> n <> s_id /\ n <> s_type.
+Proof.
+  unfold reserved_name. split.
+  - intro H. apply orb_false_iff in H. destruct H as [H1 H2]. split; intro E; subst; rewrite bytes_eqb_refl in *; discriminate.
+  - intros [H1 H2]. apply orb_false_iff. split; apply bytes_eqb_neq; assumption.
+Qed.
+
+Theorem new_schema_accepts d : new_schema_ok d = true <-> Forall type_def_valid d.
+Proof.
+  unfold new_schema_ok. rewrite forallb_forall, Forall_forall. split; intros H t Ht; specialize (H t Ht).
+  - destruct (member_name_ok (td_name t)) eqn:En; cbn [negb] in H; [|discriminate].
+    unfold type_def_ok in H. apply andb_true_iff in H. destruct H as [Ha Hr]. rewrite forallb_forall in Ha, Hr.
+    split; [rewrite member_name_eq; assumption|]. split.
+    + intros a Hin. specialize (Ha a Hin). unfold attr_def_ok in Ha.
+      destruct (reserved_name (fst a)) eqn:R; [discriminate|]. apply reserved_name_false in R. destruct R as [R1 R2].
+      destruct (existsb (fun r => bytes_eqb (fst r) (fst a)) (td_rels t)) eqn:X; [discriminate|].
+      destruct (member_name_ok (fst a)) eqn:M; cbn [negb] in Ha; [|discriminate].
+      rewrite member_name_eq. repeat split; auto.
+      intro Hi. apply in_map_iff in Hi. destruct Hi as [r [E Hr']].
+      assert (existsb (fun r => bytes_eqb (fst r) (fst a)) (td_rels t) = true) as C; [|congruence].
+      apply existsb_exists. exists r. split; [assumption|]. rewrite E. apply bytes_eqb_refl.
+    + intros r Hin. specialize (Hr r Hin). unfold rel_def_ok in Hr.
+      destruct (reserved_name (fst r)) eqn:R; [discriminate|]. apply reserved_name_false in R. destruct R as [R1 R2].
+      destruct (member_name_ok (fst r)) eqn:M; cbn [negb] in Hr; [|discriminate].
+      rewrite member_name_eq. repeat split; auto; intro E; rewrite E in Hr; discriminate.
+  - destruct H as (Hn & Ha & Hr). rewrite member_name_eq in Hn. rewrite Hn. cbn [negb].
+    unfold type_def_ok. apply andb_true_iff. split; apply forallb_forall.
+    + intros a Hin. destruct (Ha a Hin) as (M & R1 & R2 & S & N). unfold attr_def_ok.
+      rewrite (proj2 (reserved_name_false _) (conj R1 R2)).
+      destruct (existsb (fun r => bytes_eqb (fst r) (fst a)) (td_rels t)) eqn:X.
+      { exfalso. apply N. apply existsb_exists in X. destruct X as [r [Hr' E]]. apply bytes_eqb_eq in E.
+        apply in_map_iff. exists r. auto. }
+      rewrite member_name_eq in M. rewrite M. exact S.
+    + intros r Hin. destruct (Hr r Hin) as (M & R1 & R2 & K1 & K2). unfold rel_def_ok.
+      rewrite (proj2 (reserved_name_false _) (conj R1 R2)). rewrite member_name_eq in M. rewrite M. cbn [negb].
+      destruct (snd r) as [|[|]|]; try reflexivity; contradiction.
+Qed.
